@@ -1344,7 +1344,7 @@ def bi_dict(I, args, kw):
         return VDictRec(dict(kw))
     v = I.force(args[0])
     if isinstance(v, VDRec):
-        return v
+        return VDRec(v.e, v.t)      # a copy (ex_Assign makes the target local its owner)
     if isinstance(v, VJDict):
         return VJDict(v.slots)
     if isinstance(v, VDictRec):
@@ -1454,6 +1454,26 @@ def sort_seq(I, v, key, reverse=False):
             return I.call(key, [x], {})
         finally:
             I.spec = saved
+    if (key is None or isinstance(key, VNone)) and isinstance(v.et, TTuple):
+        # tuples whose trailing components have no ordering (dicts, records): python compares them only when all
+        # earlier components are equal, and raises TypeError then (unless the rest is equal too).  Definedness
+        # obligation: no two elements agree on the orderable prefix without being equal; the order is the prefix's.
+        def _orderable(t):
+            return (isinstance(t, (type(TInt), type(TStr), type(TBool), type(TReal))) or
+                    (isinstance(t, TTuple) and all(_orderable(x) for x in t.elems)))
+        nord = 0
+        while nord < len(v.et.elems) and _orderable(v.et.elems[nord]):
+            nord += 1
+        if nord < len(v.et.elems):
+            if nord == 0:
+                I.raise_exc("TypeError", "'<' not supported between unorderable values")
+            ta, tb = v.et.wrap(z3.Select(v.arr, i)), v.et.wrap(z3.Select(v.arr, j))
+            pre_eq = z3.And(*[I.eq(x, y) for x, y in zip(ta.items[:nord], tb.items[:nord])])
+            all_eq = I.eq(ta, tb)
+            I.require_defined(z3.ForAll([i, j], z3.Implies(z3.And(0 <= i, i < j, j < n), z3.Or(z3.Not(pre_eq), all_eq))),
+                              "TypeError", "'<' not supported between the unorderable tails of tuples with equal heads")
+            _k0 = keyof
+            keyof = lambda e: VTuple(_k0(e).items[:nord])
     ki, kj = keyof(z3.Select(res.arr, i)), keyof(z3.Select(res.arr, j))
     le = I.lt(kj, ki, False) if reverse else I.lt(ki, kj, False)
     keq = I.eq(ki, kj)
